@@ -1,3 +1,3 @@
-From Verif Require Import Schema.Sem Extract.C13.
+From Verif Require Import Schema.Sem Schema.Refs Extract.C13.
 Require Import ExtrOcamlBasic.
-Extraction "c13_model.ml" c13_valid c13_encode c13_unsupported c13_enc c13_enc_ev c13_poisoned c13_dev no_assertions no_applic.
+Extraction "c13_model.ml" c13_valid c13_encode c13_unsupported c13_enc c13_enc_ev c13_poisoned c13_dev no_assertions no_applic c13_doc_ok c13_resolve_doc c13_valid_r.
